@@ -128,4 +128,57 @@ theorem and3_some (a b : Bool) : and3 (some a) (some b) = some (a && b) := by
 theorem or3_some (a b : Bool) : or3 (some a) (some b) = some (a || b) := by
   cases a <;> cases b <;> rfl
 
+/-- Every leaf is defined (its SQL value is not NULL). -/
+def DefinedOn (isNull : Query.Op → String → Val → Bool) (f : Filter) : Prop :=
+  ∀ l ∈ f.leaves, isNull l.1 l.2.1 l.2.2 = false
+
+mutual
+/-- Where no leaf is NULL, the three-valued evaluation is the two-valued `Filter.eval`. -/
+theorem eval3_defined (isNull : Query.Op → String → Val → Bool) (sem : Query.Op → String → Val → Bool) :
+    ∀ (f : Filter), (∀ l ∈ f.leaves, isNull l.1 l.2.1 l.2.2 = false) →
+      eval3 (fun op k v => if isNull op k v then none else some (sem op k v)) f = some (Filter.eval sem f)
+  | .leaf op k v, h => by
+    have := h (op, k, v) (by simp [Filter.leaves])
+    simp only at this
+    simp [eval3, Filter.eval, this]
+  | .not g, h => by
+    have ih := eval3_defined isNull sem g (by simpa [Filter.leaves] using h)
+    simp [eval3, Filter.eval, ih]
+  | .and fs, h => by
+    have ih := evalAll3_defined isNull sem fs (by simpa [Filter.leaves] using h)
+    simp [eval3, Filter.eval, ih]
+  | .or fs, h => by
+    have ih := evalAny3_defined isNull sem fs (by simpa [Filter.leaves] using h)
+    by_cases he : fs.isEmpty
+    · simp [eval3, Filter.eval, he]
+    · simp [eval3, Filter.eval, he, ih]
+theorem evalAll3_defined (isNull : Query.Op → String → Val → Bool) (sem : Query.Op → String → Val → Bool) :
+    ∀ (fs : List Filter), (∀ l ∈ Filter.leavesList fs, isNull l.1 l.2.1 l.2.2 = false) →
+      evalAll3 (fun op k v => if isNull op k v then none else some (sem op k v)) fs = some (Filter.evalAll sem fs)
+  | [], _ => rfl
+  | g :: gs, h => by
+    have h1 := eval3_defined isNull sem g (fun l hl => h l (by simp [Filter.leavesList, hl]))
+    have h2 := evalAll3_defined isNull sem gs (fun l hl => h l (by simp [Filter.leavesList, hl]))
+    simp [evalAll3, Filter.evalAll, h1, h2, and3_some]
+theorem evalAny3_defined (isNull : Query.Op → String → Val → Bool) (sem : Query.Op → String → Val → Bool) :
+    ∀ (fs : List Filter), (∀ l ∈ Filter.leavesList fs, isNull l.1 l.2.1 l.2.2 = false) →
+      evalAny3 (fun op k v => if isNull op k v then none else some (sem op k v)) fs = some (Filter.evalAny sem fs)
+  | [], _ => rfl
+  | g :: gs, h => by
+    have h1 := eval3_defined isNull sem g (fun l hl => h l (by simp [Filter.leavesList, hl]))
+    have h2 := evalAny3_defined isNull sem gs (fun l hl => h l (by simp [Filter.leavesList, hl]))
+    simp [evalAny3, Filter.evalAny, h1, h2, or3_some]
+end
+
+/-! ### folds -/
+
+theorem foldl_congr_mem {α β : Type} (f g : β → α → β) (l : List α) (b : β)
+    (h : ∀ b, ∀ a ∈ l, f b a = g b a) : l.foldl f b = l.foldl g b := by
+  induction l generalizing b with
+  | nil => rfl
+  | cons a as ih =>
+    simp only [List.foldl_cons]
+    rw [h b a List.mem_cons_self]
+    exact ih _ (fun b a' ha' => h b a' (List.mem_cons_of_mem _ ha'))
+
 end Ledger.Reads
